@@ -57,25 +57,73 @@ CHECKS = {
             "whitelist), oslo.policy evaluation modelled; keystonemiddleware not exercised (noauth2).",
             "Coq proof over regenerated tables (translator) + exhaustive authorisation matrix"),
 }
+CONC_NOTE = ("Trusted: Coq 8.16.1 kernel (+vm_compute), no axioms; Model/Conc.v (requests as explicit thread state machines, one step = "
+             "one top-level database transaction, the retry loop of replace_all with its partial work) is tied to /repo by executing "
+             "generated scenarios under enumerated interleavings on the real WSGI app (deterministic scheduler: one thread per request on a "
+             "file-backed SQLite database, parked between top-level transactions touching core tables) and inside Coq, comparing statuses and "
+             "core table dumps for every executed schedule. Assumes, as the property does, that each transaction is atomic and isolated.")
+CHECKS.update({
+    'C05': ("proof", "Coq theorems over ALL schedules of ANY number of concurrent requests: a request carrying provider generation g "
+            "succeeds only if g is the provider's generation in its committing transaction; at most one of the requests carrying the same "
+            "generation succeeds with an effect; a rejected provider write changes nothing; self-derived generations are validated at commit. "
+            "Tie: schedule correspondence; oracle: at-most-one / error code / serial equivalence on the real service for every executed "
+            "interleaving (targeted gap schedules + depth-first enumeration).",
+            "6 C05", CONC_NOTE, "Coq proof by induction over schedules (generation monotonicity + compare-and-swap lemmas) + exhaustive-per-scenario schedule correspondence"),
+    'C06': ("proof", "Coq theorems over all schedules: a write naming consumer c with generation g commits only against generation g (null: "
+            "only if it created c itself); at most one of the writes carrying the same generation for an existing consumer succeeds. Two "
+            "benign anomalies of the real service are recorded as known findings (double wipe; success on a consumer created by a failed "
+            "request) and are exactly the extra hypotheses of the theorems. Tie and oracle as C05.",
+            "6 C06", CONC_NOTE, "Coq proof by induction over schedules + schedule correspondence + implementation oracle"),
+    'C07': ("proof", "Coq theorems over all schedules: C07_no_joint_overcommit (no schedule of allocation writes over-commits an inventory); "
+            "C07_serializable_partial (the successful requests executed serially in commit order give the same responses and core state) "
+            "under the hypotheses that named consumers pre-exist, no consumer is wiped twice and requests complete; C07_refuted exhibits the "
+            "schedule that falsifies the unrestricted statement (known finding). Tie: schedule correspondence; oracle: serial replay of the "
+            "successful requests in every permutation on the real service for every executed interleaving.",
+            "6 C07", CONC_NOTE, "Coq proof (commit-order serial log invariant by induction over schedules) + refutation witness by vm_compute + schedule correspondence + serial-replay oracle"),
+    'C18': ("proof", "Coq theorems for every crash point n (number of committed transactions) of every request: referential integrity, forest, "
+            "capacity safety relative to the start state, all-or-nothing of providers/inventories/allocations/associations, and the only "
+            "residue being allocation-less consumers the request names. Tie: a crash (BaseException) injected before every SQL statement and "
+            "every commit of a write corpus covering all write routes; each crashed database must be one of the model's crash states; the "
+            "property's oracle is evaluated on every crashed database.",
+            "6 C18", "Trusted: kernel; Model/Crash.v over Model/Conc.v; the database rolls back the transaction in flight when the process "
+            "dies (assumed; exercised on SQLite by the crash-injection stream).",
+            "Coq proof by induction over the request's transactions + crash injection at every statement/commit (fault enumeration) as correspondence"),
+    'C19': ("proof", "Coq theorems: start-up sync of classes/traits is complete with fixed ids, idempotent and leaves custom rows alone from "
+            "any well-formed table; standard names cannot be deleted/renamed/created through the API; every name accepted by the schema "
+            "patterns REGENERATED from /repo (regex AST incl. the end anchor) is CUSTOM_ + [A-Z0-9_]+ of at most 255 characters; custom class "
+            "ids are >= 10000, unique, existing names answered 204/409. Tie: names translator + regex model validated against CPython re, "
+            "name-heavy differential histories, start-up sync from empty/partial/full tables compared with the model, edge names through "
+            "every creating route; oracle scans the real tables.",
+            "6 C19", SEQ_NOTE + " translate/names.py parses the regular expressions (fail-closed).",
+            "Coq proof over regenerated patterns (translator) and the sync / handler models + correspondence streams"),
+    'C20': ("proof", "Coq theorems about limit_results for ANY allocation-request type and ANY random.sample / random.shuffle meeting their "
+            "contracts (hypotheses of the theorems): limit=N yields exactly min(N,M) distinct requests of the unlimited result with covering "
+            "summaries; randomised unlimited result is a permutation; without randomisation a limited answer is the prefix of the unlimited "
+            "list. Tie: the real limit_results function is executed on generated inputs (random patched to a deterministic sample/shuffle "
+            "mirrored in Coq); oracle: every limit 1..M+1 x both config settings x seeds over HTTP; run-to-run order determinism is monitored "
+            "only (labelled).",
+            "6 C20", "Trusted: kernel; sample_contract / shuffle_contract are explicit hypotheses (CPython random); the order of the unlimited "
+            "list (set/dict iteration, SQLite row order) is not modelled.",
+            "Coq proof with the random choice as a universally quantified oracle + object-level differential execution of limit_results"),
+})
 PENDING = {
     'C02': 'check not built yet (allocation-candidate model in progress)',
     'C03': 'check not built yet (allocation-candidate model in progress)',
-    'C05': 'check not built yet (schedule model in progress)',
-    'C06': 'check not built yet (schedule model in progress)',
-    'C07': 'check not built yet (schedule model in progress)',
     'C11': 'check not built yet',
     'C13': 'check not built yet',
     'C15': 'check not built yet',
     'C17': 'check not built yet',
-    'C18': 'check not built yet',
-    'C19': 'check not built yet',
-    'C20': 'check not built yet',
 }
+
+
+NOT_YET = {'C07': 'serializability proof in progress (statements in coq/Props/C07.v)'}
 
 
 def main():
     checks = []
     for pid in sorted(CHECKS):
+        if pid in NOT_YET:
+            continue
         cat, text, ref, note, tech = CHECKS[pid]
         checks.append({
             'property_id': pid,
@@ -94,10 +142,11 @@ def main():
         'hooks': {'guard': 'PLACEMENT_VERIF', 'enable': 'none required: the checks use SQLAlchemy engine events, oslo.config '
                   'overrides and WSGI only; no source hooks exist', 'baseline_off_cmd': BASELINE,
                   'source_commits': [], 'add_only': True},
-        'engines': [{'name': 'coq+harness', 'path': '/verif/check', 'serves_properties': sorted(CHECKS),
+        'engines': [{'name': 'coq+harness', 'path': '/verif/check', 'serves_properties': sorted(p for p in CHECKS if p not in NOT_YET),
                      'kind_free_text': 'Coq 8.16.1 development (coq/) + Python harness driving the real WSGI app (harness/)'}],
         'checks': checks,
-        'not_applicable': [{'property_id': p, 'reason': r} for p, r in sorted(PENDING.items()) if p not in CHECKS],
+        'not_applicable': [{'property_id': p, 'reason': r} for p, r in sorted(list(PENDING.items()) + list(NOT_YET.items()))
+                           if p not in CHECKS or p in NOT_YET],
         'notes': 'fix: commits in /repo: 9ac319a (stray consumers). Known findings: known_findings.json.',
     }
     json.dump(m, open(os.path.join(HERE, 'MANIFEST.json'), 'w'), indent=1)
